@@ -30,6 +30,19 @@ def status_table():
     return "\n".join(out)
 
 
+def defects_table():
+    kf = json.load(open(os.path.join(V, "known_findings.json")))["findings"]
+    out = ["| # | Prop | status | what fails | why not repaired |", "|---|------|--------|-----------|------|"]
+    for f in sorted(kf, key=lambda f: int(f["id"][1:])):
+        st = "known" if f["status"] == "known" else "fixed " + f["commit"]
+        what = f["what"]
+        if f["status"] == "fixed":
+            what = what.split(f["commit"] + " ", 1)[-1]
+        out.append("| %s | %s | %s | %s | %s |" % (f["id"], f["property"], st, what.replace("|", "/"),
+                                                   f.get("why_not_fixed", "").replace("|", "/")))
+    return "\n".join(out)
+
+
 def seed_table():
     return subprocess.run([sys.executable, os.path.join(V, "tools", "seed_table.py")], stdout=subprocess.PIPE, text=True,
                           check=True).stdout.rstrip()
@@ -44,6 +57,7 @@ def splice(text, tag, body):
 p = os.path.join(V, "DESIGN.md")
 t = open(p).read()
 t = splice(t, "STATUS-TABLE", status_table())
+t = splice(t, "DEFECTS-TABLE", defects_table())
 t = splice(t, "SEED-TABLE", seed_table())
 open(p, "w").write(t)
 print("DESIGN.md: status table and seed table regenerated")
